@@ -456,3 +456,40 @@ def components_by_name_and_by_class_are_the_naive_selection(n: int, p2: int, p3:
         assert same(nodes[i].parent, nodes[par[i]])
     for i in range(n):
         assert same_seq(nodes[i]._children, [nodes[j] for j in kids(n, par, i)])
+
+
+@lemma(gen={"n": (1, 4), "p2": (0, 1), "p3": (0, 2)}, stubs=HASFLAGS)
+def the_single_component_query_returns_the_one_match(n: int, p2: int, p3: int, exact: bool, c1: bool, c2: bool, c3: bool, a1: bool, a2: bool, a3: bool, x1: bool, x2: bool, x3: bool):
+    """getComponent(spec, exact, quiet=True) on the shapes and contents of components_are_the_matching_leaves_in_walk_order:
+    the one matching leaf component, None when there is none, refused (ValueError) when there are several - never
+    the first of several, never an inner node that happens to match."""
+    n = choose(n, 1, 4)
+    p2 = choose(p2, 0, 1)
+    p3 = choose(p3, 0, 2)
+    par = [0, 0, p2, p3]
+    isComp = [False, c1, c2, c3]
+    fa, fx = [False, a1, a2, a3], [False, x1, x2, x3]
+    nodes = []
+    for i in range(n):
+        leaf = len(kids(n, par, i)) == 0 and i > 0
+        if leaf and isComp[i]:
+            nodes.append(new(Component, name="n%d" % i, parent=None, _children=[], p=new(PStub, type="t"), fA=fa[i], fAx=fx[i], fB=False))
+        else:
+            nodes.append(new(Composite, name="n%d" % i, parent=None, _children=[], p=new(PStub, type="t"), fA=True, fAx=True, fB=True))
+    for i in range(1, n):
+        nodes[par[i]]._children.append(nodes[i])
+        nodes[i].parent = nodes[par[i]]
+    specA = new(Marker, key="A")
+    pre = preorder(n, par, 0)
+    exp = [j for j in pre if j > 0 and len(kids(n, par, j)) == 0 and isComp[j] and (fx[j] if exact else fa[j])]
+    try:
+        got = nodes[0].getComponent(specA, exact, True)
+        raised = False
+    except ValueError:
+        raised = True
+    assert raised == (len(exp) > 1), "several matches are refused, nothing else is"
+    if not raised:
+        if len(exp) == 0:
+            assert got is None
+        else:
+            assert same(got, nodes[exp[0]]), "the one matching leaf component"
